@@ -97,6 +97,9 @@ FIXED = [
     ("C02", "094d6a2", "`[1].map(function g(x){return [1].map(g)})` and `function f(){ return f.call(null) } f()` ended in a Python RecursionError instead of MemoryLimitError: script code nested through natives was not counted against any budget"),
     ("C04", "5541b57", "`a.reduce(function(acc,x){a.pop();return acc+x})` (and reduceRight) let a raw IndexError escape: the loop bound was computed before the callbacks ran"),
     ("C02", "3b8c2ec", "`for(i<200000){ try { for (k in o) { return k } } finally { continue } }` hit MemoryLimitError: the return kept the for-in iterator on the stack and the continue in the finally block dropped only the return value"),
+    ("C08", "46bea00", "`f.bind({x:1},'a').bind({x:2},'b')('c')` ran f with this = {x:2} and arguments ('b','c'): bind wrapped a bound function without taking over its this/arguments and the call path unwraps one level"),
+    ("C02", "5899f59", "`var f=Math.abs; for(i<5000) f=f.bind(null); f(1)` ended in a Python RecursionError: each bind of a host function nested one more Python closure"),
+    ("C02", "8c4e172", "`var g=Math.abs; for(i<5000) g=g.call; g()` (same with apply, and with a script function) ended in a Python RecursionError: stacked call/apply wrappers called their captured function outside the host-depth budget"),
 ]
 
 
